@@ -79,6 +79,8 @@ def parseSel (s : String) : Option Sel :=
   | ["count"] => some .count
   | ["sum", f] => some (.sum f)
   | ["avg", f] => some (.avg f)
+  | ["sum2", f, g] => some (.sum2 f g)
+  | ["avg2", f, g] => some (.avg2 f g)
   | ["min", f] => some (.min f)
   | ["max", f] => some (.max f)
   | _ => none
@@ -102,6 +104,7 @@ def showRes : AggRes → String
 structure St where
   docs : List Doc := []
   ids : List (Nat × Bytes) := []     -- label ↦ docID bytes
+  aux : List (Option Int × Int) := []  -- the second aggregate source: (v, w in eighths)
 
 /-- IEEE-754 double bits of `n8 / 8` (driver only: Lean's runtime `Float`) -/
 def f64BitsOfEighths (n8 : Int) : Nat := (Float.ofInt n8 / 8.0).toBits.toNat
@@ -125,9 +128,10 @@ def step (st : St) (toks : List String) : St × String :=
   | ["doc", id, name, age, score, flag, docid] =>
     match id.toNat?, parseV name, parseV age, parseV score, parseV flag, Bytes.ofHex docid with
     | some i, some n, some a, some s, some f, some did =>
-      ({ docs := st.docs ++ [{ id := i, fields := [("name", n), ("age", a), ("score", s), ("flag", f)] }],
-         ids := st.ids ++ [(i, did)] }, "ok")
+      ({ st with docs := st.docs ++ [{ id := i, fields := [("name", n), ("age", a), ("score", s), ("flag", f)] }],
+                 ids := st.ids ++ [(i, did)] }, "ok")
     | _, _, _, _, _, _ => (st, "bad-op")
+  | ["aux", v, w8] => ({ st with aux := st.aux ++ [(v.toInt?, w8.toInt?.getD 0)] }, "ok")
   | ["upd", id, field, v] =>
     match id.toNat?, parseV v with
     | some i, some x =>
@@ -152,7 +156,9 @@ def step (st : St) (toks : List String) : St × String :=
     match parseF 12 filt, limit.toNat?, offset.toNat?, parseSel sel with
     | some f, some l, some o, some s =>
       let q : Q := { filter := f, order := parseOrder order, limit := l, offset := o, sel := s }
-      (st, showRes (evalPinned q st.docs))
+      match aggregate2 q.sel (pipeline lessPinned (effective q) st.docs) st.aux with
+      | some r => (st, showRes r)
+      | none => (st, showRes (evalPinned q st.docs))
     | _, _, _, _ => (st, "bad-op")
   | _ => (st, "bad-op")
 
